@@ -7,6 +7,7 @@ import (
 	"sort"
 	"strings"
 	"sync"
+	"time"
 
 	"github.com/go-ldap/ldap/v3"
 	"github.com/jimlambrt/gldap"
@@ -31,7 +32,7 @@ func init() {
 			}
 			return ps
 		},
-		MinObserved: []string{"responses_checked", "goldap_responses_checked", "responses_from_a_request_with_several_responses", "responses_written_again_after_further_setters"},
+		MinObserved: []string{"responses_checked", "goldap_responses_checked", "responses_from_a_request_with_several_responses", "responses_written_again_after_further_setters", "requests_answered_by_another_requests_handler"},
 	})
 }
 
@@ -196,6 +197,11 @@ func genScript(r *Rand, ctor string) *c04Script {
 		s.Setters = append(s.Setters, st)
 	}
 	return s
+}
+
+type c04Parked struct {
+	req  *gldap.Request
+	done chan struct{}
 }
 
 type c04Built struct {
@@ -471,6 +477,7 @@ func c04Scripts(c *Ctx, useTLS bool) {
 			r := c.Rng.Sub(fmt.Sprintf("w%d", w))
 			var mu sync.Mutex
 			scripts := map[string][]*c04Script{}
+			parked := map[string]*c04Parked{}
 			errs := map[string]error{}
 			handler := func(w *gldap.ResponseWriter, req *gldap.Request) {
 				var key string
@@ -482,7 +489,54 @@ func c04Scripts(c *Ctx, useTLS bool) {
 				mu.Lock()
 				s := scripts[key]
 				mu.Unlock()
+				if strings.HasPrefix(key, "xreq-park-") {
+					// the request is answered later, by ANOTHER request's handler (a cancel-style flow): hand the
+					// request over and stay around until that has happened
+					ch := make(chan struct{})
+					mu.Lock()
+					parked[key] = &c04Parked{req: req, done: ch}
+					mu.Unlock()
+					select {
+					case <-ch:
+					case <-time.After(patience):
+					}
+					return
+				}
 				if s == nil {
+					return
+				}
+				if strings.HasPrefix(key, "xreq-fire-") {
+					pk := "xreq-park-" + strings.TrimPrefix(key, "xreq-fire-")
+					var p *c04Parked
+					for dl := time.Now().Add(patience); p == nil && time.Now().Before(dl); time.Sleep(200 * time.Microsecond) {
+						mu.Lock()
+						p = parked[pk]
+						mu.Unlock()
+					}
+					if p == nil {
+						mu.Lock()
+						errs[key] = fmt.Errorf("the parked request never arrived")
+						mu.Unlock()
+						return
+					}
+					defer close(p.done)
+					if msg, st := catch(func() {
+						// s[0] is built from the PARKED request and written with this request's writer, s[1] is this
+						// request's own response
+						err := runGroup(w, p.req, s[:1])
+						if err == nil {
+							err = runGroup(w, req, s[1:])
+						}
+						if err != nil {
+							mu.Lock()
+							errs[key] = err
+							mu.Unlock()
+						}
+					}); msg != "" {
+						mu.Lock()
+						errs[key] = fmt.Errorf("panic: %s\n%s", msg, stackHead(st, 16))
+						mu.Unlock()
+					}
 					return
 				}
 				if msg, st := catch(func() {
@@ -546,6 +600,26 @@ func c04Scripts(c *Ctx, useTLS bool) {
 					} else {
 						all = append(all, sber.Message(s.MsgID, sber.Search{Base: []byte(key), Scope: 2, Filter: sber.PresentFilter("objectClass"), Attrs: [][]byte{}}.Node(), nil).Encode()...)
 					}
+				}
+				// now and then: a request that is answered by a LATER request's handler, with that handler's writer
+				// (the response must still carry the message ID of the request it was built from)
+				if r.Chance(20) {
+					sx, sy := genScript(r, pick(r, c04Ctors)), genScript(r, pick(r, c04Ctors))
+					for used[sx.MsgID] {
+						sx.MsgID = genID(r)
+					}
+					used[sx.MsgID] = true
+					for used[sy.MsgID] {
+						sy.MsgID = genID(r)
+					}
+					used[sy.MsgID] = true
+					tag := fmt.Sprintf("%d", i)
+					scripts["xreq-fire-"+tag] = []*c04Script{sx, sy}
+					delete(parked, "xreq-park-"+tag)
+					list = append(list, sx, sy)
+					all = append(all, sber.Message(sx.MsgID, sber.Search{Base: []byte("xreq-park-" + tag), Scope: 2, Filter: sber.PresentFilter("objectClass"), Attrs: [][]byte{}}.Node(), nil).Encode()...)
+					all = append(all, sber.Message(sy.MsgID, sber.BindRequest(3, []byte("xreq-fire-"+tag), []byte("p")), nil).Encode()...)
+					c.Count("requests_answered_by_another_requests_handler", 1)
 				}
 				mu.Unlock()
 				cl, err := dialRaw(srv.Addr, ctc)
